@@ -81,6 +81,19 @@ def gen_history(rng, length, readonly_safe=False, valkeys=None, funcs=3):
             ops.append(["wmeta", f, a, META_KEYS[0] if rng.random() < 0.7 else META_KEYS[1], "m%d" % rng.randrange(4)])
         else:
             ops.append(["rmeta", f, a, META_KEYS[0] if rng.random() < 0.7 else META_KEYS[1]])
+    # aimed block: everything written for a function whose stored name extends another one's (fn#1 / fn#10, fn / fn1),
+    # a forget of the shorter one, then everything read back from the longer one
+    if funcs >= 2 and rng.random() < 0.3:
+        short, long_ = (0, 1) if funcs < 3 or rng.random() < 0.6 else (0, 2)
+        a = rng.randrange(NARGS)
+        block = [["memoize", long_, a, rng.choice(vk), rng.choice(OVERRIDES)], ["wmeta", long_, a, META_KEYS[0], "m%d" % rng.randrange(4)]]
+        if rng.random() < 0.5:
+            block.append(["memoize", short, a, rng.choice(vk), None])
+            block.append(["wmeta", short, a, META_KEYS[0], "m%d" % rng.randrange(4)])
+        block.append(rng.choice([["forget_fn", short], ["forget_call", short, a], ["forget_fn", short]]))
+        block += [["rmeta", long_, a, META_KEYS[0]], ["read", long_, a], ["ismem", long_, a], ["list_mems", long_], ["list_fns"]]
+        at = rng.randrange(len(ops) + 1)
+        ops[at:at] = block
     return ops
 
 
